@@ -757,7 +757,7 @@ class TensorDiagram:
     def copy(self) -> TensorDiagram:
         result = TensorDiagram()
         result._nodes = self._nodes.copy()
-        result._unused_indices = self._unused_indices.copy()
+        result._unused_indices = [(cov.copy(), con.copy()) for cov, con in self._unused_indices]
         result._node_positions = self._node_positions.copy()
         result._contraction_list = self._contraction_list.copy()
         result._index_count = self._index_count
